@@ -270,27 +270,38 @@ def run(ctx, model=None):
                 continue
             p = {"seed": 7, "w": w, "l": l, "m": 6, "pr": 0.1, "pl": 0.1, "pt": 0.1, "plo": 0.3, "fd": fd}
             check_params(ctx, p, model if l * w <= 30 else None, solve=False)
+    boards.generator_environment(ctx, "loadable", [["--seed=2", "--width=2", "--length=2", "--prob_robot_break=0.1043"],
+                                                   ["--seed=6", "--width=1", "--length=3", "-f"]])
     # manual entry point
     sg = repo("stochastic_game_from_roborta_board")
     for _ in range(3 if ctx.quick() else 40):
         L, W = rng.randint(1, 3), rng.randint(1, 3)
         mv, rw, ls = boards.random_board(rng, L, W, rng.random() < 0.5)
-        r = boards.run_generator(call=lambda _rg: sg.create_sg_from_board(mv, rw, ls, 0.1, 0.05, 0.2))
-        inp = {"manual": True, "moves": mv, "rewards": rw, "loose": ls}
-        ctx.case(inp, L * W > 1)
-        if r["outcome"] != "ok" or len(r["files"]) != 1:
-            ctx.violation("writes-one-file", inp, {"outcome": r["outcome"], "files": list(r["files"])})
-            continue
-        try:
-            d = load_text(list(r["files"].values())[0])
-        except Exception as e:  # noqa
-            ctx.violation("loadable", inp, {"error": type(e).__name__})
-            continue
-        if list(d.keys()) != ["game_a", "game_b", "game_c"]:
-            ctx.violation("exactly-three-games", inp, {"keys": list(d.keys())})
-            continue
-        if all([proper(ctx, inp, k, g) for k, g in d.items()]):
-            solve_games(ctx, inp, {k: dict(g, _meta={"family": "board"}) for k, g in d.items()}, model, 3.0)
+        if _ % 2 == 1:
+            # a hand-written board whose rows are tuples (e.g. list(zip(*columns)))
+            mv, rw, ls = [tuple(r) for r in mv], [tuple(r) for r in rw], [tuple(r) for r in ls]
+        check_manual(ctx, mv, rw, ls, model, L * W > 1)
+
+
+def check_manual(ctx, mv, rw, ls, model=None, nontrivial=True):
+    """the manual entry point create_sg_from_board(moves, rewards, loose, ...) on a hand-written board"""
+    sg = repo("stochastic_game_from_roborta_board")
+    r = boards.run_generator(call=lambda _rg: sg.create_sg_from_board(mv, rw, ls, 0.1, 0.05, 0.2))
+    inp = {"manual": True, "moves": mv, "rewards": rw, "loose": ls}
+    ctx.case(inp, nontrivial)
+    if r["outcome"] != "ok" or len(r["files"]) != 1:
+        ctx.violation("writes-one-file", inp, {"outcome": r["outcome"], "files": list(r["files"])})
+        return
+    try:
+        d = load_text(list(r["files"].values())[0])
+    except Exception as e:  # noqa
+        ctx.violation("loadable", inp, {"error": type(e).__name__})
+        return
+    if list(d.keys()) != ["game_a", "game_b", "game_c"]:
+        ctx.violation("exactly-three-games", inp, {"keys": list(d.keys())})
+        return
+    if all([proper(ctx, inp, k, g) for k, g in d.items()]):
+        solve_games(ctx, inp, {k: dict(g, _meta={"family": "board"}) for k, g in d.items()}, model, 3.0)
 
 
 def known_findings(ctx):
@@ -312,5 +323,13 @@ def known_findings(ctx):
 
 def replay(ctx, viol):
     i = viol["input"]
+    if "argv" in i:
+        boards.generator_environment(ctx, viol["clause"], [i["argv"]])
+        return
+    if i.get("manual"):
+        tup = isinstance(viol.get("detail"), dict)
+        check_manual(ctx, i["moves"], i["rewards"], i["loose"])
+        check_manual(ctx, [tuple(r) for r in i["moves"]], [tuple(r) for r in i["rewards"]], [tuple(r) for r in i["loose"]])
+        return
     if "seed" in i:
         check_params(ctx, {k: i[k] for k in ("seed", "w", "l", "m", "pr", "pl", "pt", "plo", "fd")})
